@@ -72,7 +72,9 @@ check('C20', 'fault_enumeration',
       'return 23 | usage error; anything else (uncaught exception, NaN/inf printed, partial report, several lines with 23, no output) is a '
       'violation unless it is a recorded known finding (matched by the fault = option / field / value without its base command, exception type and '
       'innermost function; two-fault scenarios are attributed to the fault that is recorded as failing on its own; NaN gain with non-positive '
-      'input power is identified by that condition).',
+      'input power is identified by that condition). code->spec: the Stage events of every real run are validated as a behaviour of the pipeline '
+      'by spec/TraceCmdline.tla in one batched TLC run (stage order, no diagnostic after the frequency loop was entered); thorough tier: three '
+      'simultaneous faults.',
       'Trusted: TLC, report parser, in-process execution of main with captured stdout/stderr. The site table is learnt from the code at build '
       'time and committed; a predicted diagnostic that turns out to be a legitimate report (or vice versa) is not a violation because the '
       'property allows either. Unwritable output paths (environment faults) are outside the domain.',
